@@ -77,6 +77,7 @@ class View:
         cur = {'index': 0, 'segments': [], 'dump': None, 'reapplied': True}
         self.epochs.append(cur)
         prev_solver = None
+        pending_state = None
         cur_eta = list(self.eta)
         self.aborted = H.get('aborted_at') is not None
         for rec in H['ops']:
@@ -97,11 +98,16 @@ class View:
                     'T_presented': rec.get('T_presented'),
                     'dump': rec['dump'],
                     'eta': list(cur_eta),
+                    # position / speed assigned to the last element since
+                    # the previous run (SI), None = untouched
+                    'state_in': pending_state,
                 }
+                pending_state = None
                 prev_solver = rec['solver_id']
                 cur['segments'].append(seg)
                 cur['dump'] = rec['dump']
             elif rec['op'] == 'reset':
+                pending_state = None
                 if rec['exc'] is None:
                     cur = {'index': cur['index'] + 1, 'segments': [],
                            'dump': None, 'reapplied': bool(op.get('reapply'))}
@@ -116,6 +122,14 @@ class View:
                 self.stats['redeclared_between_runs'] += 1
             elif rec['op'] == 'set_pwm':
                 pass
+            elif rec['op'] == 'set_state' and rec['exc'] is None:
+                pending_state = dict(pending_state or {})
+                if op.get('position') is not None:
+                    pending_state['th'] = si.q_si('AngularPosition',
+                                                  op['position'])
+                if op.get('speed') is not None:
+                    pending_state['w'] = si.q_si('AngularSpeed', op['speed'])
+                self.stats['state_assigned_between_runs'] += 1
 
     # -- series access (chain position p, variable) of an epoch
     def series(self, ep, p, var):
@@ -212,8 +226,12 @@ class View:
                     release = False
                     rel_und = False
                 else:
-                    w_adv = wN[k - 1] + aN[k - 1] * seg['dt']
-                    band_w = (REL * max(abs(wN[k - 1]),
+                    w_prev = wN[k - 1]
+                    if first and seg.get('state_in') and \
+                            'w' in seg['state_in']:
+                        w_prev = seg['state_in']['w']
+                    w_adv = w_prev + aN[k - 1] * seg['dt']
+                    band_w = (REL * max(abs(w_prev),
                                         abs(aN[k - 1] * seg['dt']))
                               + 7e-12 / self.R_tot)
                     T_prev = tq0[k - 1]
@@ -256,7 +274,9 @@ class View:
                             'w_adv': w_adv, 'engage': engage,
                             'release': release, 'und': und or ref is None,
                             'prev_held': held, 'dt': seg['dt'],
-                            'first': first})
+                            'first': first,
+                            'state_in': seg.get('state_in') if first and k
+                            else None})
                 # the reference continues from its own state unless undecided
                 held = ref
         return out
